@@ -54,6 +54,35 @@ pub fn tc_s(p: &Params) -> f64 {
     }
 }
 
+/// Largest (last bound exceedance, last step) times in seconds that the unchanged tree showed over
+/// 33 000 closed-loop runs of the *clean start classes* (slave more than 0.2 s behind the master,
+/// or at least 5 s ahead of it), per (log sync interval, log delay interval) in -3..=1. In these
+/// classes the servo's first step cannot pollute its measurement-noise estimate (the sample
+/// stored before a backward step of s seconds is only re-used if the next sample of the other
+/// kind arrives s +- 0.2 s later, impossible for s >= 5 s with intervals <= 2 s), so the
+/// convergence time has a short tail; the other classes keep the generic bound `tc_s`.
+/// Calibration: DESIGN.md Appendix A.
+const CLEAN_MAX: [[(f64, f64); 5]; 5] = [
+    [(30.7, 17.6), (24.7, 13.2), (31.4, 16.6), (44.4, 14.2), (73.5, 20.8)],
+    [(29.3, 16.6), (24.8, 9.9), (32.0, 10.3), (50.3, 18.1), (77.5, 19.4)],
+    [(31.1, 17.0), (30.9, 10.4), (40.3, 12.4), (60.7, 16.5), (94.7, 31.2)],
+    [(44.9, 12.2), (45.7, 16.2), (74.2, 18.6), (109.7, 42.1), (181.5, 57.2)],
+    [(55.5, 17.3), (69.4, 19.9), (111.1, 32.4), (196.2, 73.7), (309.1, 125.6)],
+];
+
+/// (offset deadline, step deadline) in seconds for the clean start classes: twice the calibrated
+/// worst case, with floors of 60 s / 30 s
+pub fn clean_class_deadlines(p: &Params) -> Option<(f64, f64)> {
+    if !(p.offset_s < -0.2 || p.offset_s >= 5.0) {
+        return None;
+    }
+    if !(-3..=1).contains(&p.log_sync) || !(-3..=1).contains(&p.log_delay) {
+        return None;
+    }
+    let (e, s) = CLEAN_MAX[(p.log_sync + 3) as usize][(p.log_delay + 3) as usize];
+    Some(((2.0 * e).max(60.0), (2.0 * s).max(30.0)))
+}
+
 pub const T0_UNITS: u128 = 1_700_000_000u128 * SEC;
 
 pub fn simulate(p: &Params, horizon_s: f64) -> Outcome {
@@ -186,6 +215,12 @@ pub fn run_case(rep: &mut Report, p: &Params, hist: &mut Vec<f64>, conv: &mut Ve
         return;
     }
     rep.ev("closed_loop_run");
+    if let Ok(path) = std::env::var("VP_C02_DUMP") {
+        use std::io::Write;
+        if let Ok(mut f) = std::fs::OpenOptions::new().create(true).append(true).open(path) {
+            let _ = writeln!(f, "{}", json!({"p": p, "last_exceed": o.last_exceed_s, "last_step": o.last_step_s, "n_step": o.n_step}));
+        }
+    }
     rep.evn("set_frequency_calls", o.n_set_freq as u64);
     rep.evn("step_clock_calls", o.n_step as u64);
     hist.push(o.max_abs_after_tc_ns / bound_ns(p));
@@ -218,12 +253,33 @@ pub fn run_case(rep: &mut Report, p: &Params, hist: &mut Vec<f64>, conv: &mut Ve
             rep.violation(&format!("C02|step-after-convergence|{sync_class}"), &format!("step_clock at t={t:.1}s > Tc={tc}s ({} steps in total)", o.n_step), replay.clone());
         }
     }
+    if let Some((te, tstep)) = clean_class_deadlines(p) {
+        rep.ev("clean_class_run");
+        if let Some(t) = o.last_exceed_s {
+            if t > te && t <= tc {
+                rep.violation(
+                    &format!("C02|slow-convergence|offset-outside-bound-after-class-deadline|{sync_class}"),
+                    &format!("true offset still exceeded max(1us, jitter)={:.0} ns at t={t:.1}s; start class (offset {:.3}s, sync 2^{}, delay 2^{}) converges within {:.0}s on the calibrated servo (deadline {te:.0}s = 2x worst of 33000 runs)", bound_ns(p), p.offset_s, p.log_sync, p.log_delay, te / 2.0),
+                    replay.clone(),
+                );
+            }
+        }
+        if let Some(t) = o.last_step_s {
+            if t > tstep && t <= tc {
+                rep.violation(
+                    &format!("C02|slow-convergence|step-after-class-deadline|{sync_class}"),
+                    &format!("step_clock at t={t:.1}s ({} steps in total); start class (offset {:.3}s, sync 2^{}, delay 2^{}) stops stepping within {:.0}s on the calibrated servo (deadline {tstep:.0}s = 2x worst of 33000 runs)", o.n_step, p.offset_s, p.log_sync, p.log_delay, tstep / 2.0),
+                    replay.clone(),
+                );
+            }
+        }
+    }
     rep.distinct_case(&format!("{p:?}"));
 }
 
 pub fn run(rep: &mut Report, tier: &str, seed: u64, shard: (u32, u32), replay: Option<&str>) {
     rep.rule = "closed-loop runs: real statime master port (perfect clock) and real slave port with the default Kalman servo over a clock model with initial offset in +-10 s, oscillator error in +-150 ppm, symmetric delay 1-400 us, jitter 0-20 us, sync/delay intervals 2^-3..2^1 s, one-/two-step; corners and random interior points; truth sampled every 100 ms of virtual time; distinct = distinct parameter points; non-trivial = the port became slave and the servo issued commands".into();
-    rep.require(&["closed_loop_run", "set_frequency_calls", "step_clock_calls"]);
+    rep.require(&["closed_loop_run", "set_frequency_calls", "step_clock_calls", "clean_class_run"]);
     if let Some(path) = replay {
         let v: serde_json::Value = serde_json::from_str(&std::fs::read_to_string(path).unwrap()).unwrap();
         if let Ok(p) = serde_json::from_value::<Params>(v["case"].clone()) {
